@@ -2,7 +2,7 @@
 from ._stream import make
 
 PROPERTY = 'C07'
-TIERS = {'quick': {'runs': 10000, 'group': 200}, 'thorough': {'runs': 120000, 'group': 1000}}
+TIERS = {'quick': {'runs': 10000, 'group': 200}, 'thorough': {'runs': 120000, 'group': 400}}
 RULE = ('Each run delivers a text through the reader seam and parses it strictly and tolerantly. 45% are recovery runs: a '
         'document of the restricted sub-grammar (no math, verbatim, list regions; every bracket an argument delimiter) '
         'that parses and round-trips intact, tried with several alternative single faults (quick 3, thorough up to 16): '
